@@ -57,3 +57,14 @@ def replay(ctx, payload):
         from harness import norm_exec
         return norm_exec.replay_norm(ctx, w, PROPS)
     return ce.replay_cache(ctx, payload.get("witness", payload), PROPS)
+
+
+def explore_shard(ctx):
+    """extra parallel shard of the thorough tier: the seeded histories (cooperative scheduler, logical clock)"""
+    res = ce.explore_cache(ctx, PROPS, 4000, steps=6)
+    from harness import norm_exec
+    rn = norm_exec.explore_norm(ctx, 1200, steps=5, props=PROPS, salt=43)
+    res["violations"] += rn["violations"]
+    res["disagreements"] += rn["disagreements"]
+    res["coverage"].update(rn["coverage"])
+    return res
